@@ -86,6 +86,7 @@ impl Property for C13 {
             // the same concrete action on the native twin, attaching what the cw20 twin pulled
             let act_n = match &act {
                 Act::Open { t, v, buy, margin, lev, limit, directed, .. } => Act::Open { t: *t, v: *v, buy: *buy, margin: *margin, lev: *lev, limit: *limit, attach: pulled, directed: *directed },
+                Act::Deposit { t, v, amount, .. } => Act::Deposit { t: *t, v: *v, amount: *amount, attach: if rc.ok { pulled } else { *amount } },
                 other => other.clone(),
             };
             let attach_override = match &act {
